@@ -37,6 +37,9 @@ CHECKS = {
     "C15": ("metamorphic monitor: forest decorated with file/dir symlinks and redundant path segments vs its canonical twin, keyed by physical file; structural invariant one-tree-per-inode; gcc on the twin; cbi-tree on a sample",
             "Compile commands, -I, -include and #include spellings go through aliases; unused links to members and to outside files.",
             "physical identity = realpath/inode; compiled file links sit beside their target", "6/C15"),
+    "C17": ("reference-model + external-oracle monitor: FileParser on generated free-form Fortran vs the fscan line-class scanner; finder.find selection of marker statements vs gfortran -cpp -E for every define set; gfortran -fsyntax-only as premise filter",
+            "Every sequence of <=2 (thorough 3) lines from a 34-line vocabulary inside a program skeleton plus random programs from the statement grammar, crossed with 10 define sets.",
+            "gfortran 12.2 -cpp is the Fortran pipeline; fscan is the reference for line classes; a lone continuation '&' is not statement text", "6/C17"),
     "C18": ("trace monitor over log records: expected multiset of warnings (dangling includes counted dynamically with a gcc probe twin, unknown directives, database-level events) vs records captured from the real codebasin CLI / in-process runs, cbi.log and the printed totals",
             "Forests with ~30% dangling include sites (quote/angle/computed, live/dead, multiply included, several TUs), unknown and benign directives, database entries for missing files, unknown compilers, unknown flags; fully resolvable controls.",
             "gcc probe twin gives dynamic evaluation counts; unknown directives: exactly one warning per live site, at most one per dead site", "6/C18"),
